@@ -754,6 +754,16 @@ async fn aquery_inner(index_kind: Kind, index_bytes: &[u8], data_kind: Kind, src
                             Ok(n) => items.push(format!("Q|{off}|{:02x?}|{}", &buf[..n], u64::from(r.virtual_position()))),
                             Err(e) => items.push(format!("Q|{off}|read Err({:?})", e.kind())),
                         }
+                        if r.seek_by_uncompressed_position(&index, off).await.is_ok() {
+                            let mut b4 = [0u8; 4];
+                            let e = r.read_exact(&mut b4).await.map(|_| ());
+                            items.push(format!("Q|{off}|read_exact {:?} {:02x?}", e.as_ref().map_err(|e| e.kind()), if e.is_ok() { b4 } else { [0; 4] }));
+                        }
+                        if r.seek_by_uncompressed_position(&index, off).await.is_ok() {
+                            use tokio::io::AsyncBufReadExt;
+                            let e = r.fill_buf().await.map(|b| b.len().min(1));
+                            items.push(format!("Q|{off}|fill_buf {:?}", e.map_err(|e| e.kind())));
+                        }
                     }
                     Err(e) => items.push(format!("Q|{off}|seek Err({:?})", e.kind())),
                 }
